@@ -455,11 +455,25 @@ TemporariesEmpty == /\ (stack = <<>> => temp = {})
 \* When a definition is emitted, every definition it leads to (as Resolver::lookup reads its identifiers) has
 \* been emitted before it, or the edge to it was reported as a dependency cycle.  (A base unit's long name is a
 \* key of `input` that is never emitted: such targets are excluded here and accounted for by LongNameRefs.)
+\* (Stated on the finished order: positions in `sorted` and reported edges never change once they exist, and by
+\* EmittedOnce every definition is in the finished order, so an earlier violation is still one at the end.)
 TopoOrder ==
+  phase = "post" =>
   \A i \in DOMAIN sorted :
     \A t \in Range(Deps(input, sorted[i])) :
       t \in AllIds => \/ (t \in Emitted /\ PosIn(sorted, t) < i)
                       \/ <<sorted[i], t>> \in cut
+
+\* The same without the exclusion: the definition *behind* every key a definition leads to (for a long name, the
+\* base unit) is emitted first.  The code does not have this property (a unit that mentions a base unit by its
+\* long name is emitted first when its own name sorts first): MC_Loader_longname.cfg shows the counterexample.
+Behind(t) == IdOf(input[t])
+TopoOrderStrict ==
+  phase = "post" =>
+  \A i \in DOMAIN sorted :
+    \A t \in Range(Deps(input, sorted[i])) :
+      \/ (Behind(t) \in Emitted /\ PosIn(sorted, Behind(t)) < i)
+      \/ <<sorted[i], t>> \in cut
 
 \* dependency graph over the definitions, reachability in >= 1 steps
 Edge(a, b) == b \in Range(Deps(input, a))
@@ -473,7 +487,7 @@ CycleErr(a) == \E i \in DOMAIN errors : errors[i].k = "cycle" /\ errors[i].ns = 
 
 \* every dependency cycle is reported (for some definition on that very cycle), and nothing else is
 CycleReported ==
-  phase \in {"eval", "post", "done"} =>
+  phase = "post" =>
     /\ \A a \in AllIds : OnCycle(a) => \E b \in AllIds : b \in Reach(a) /\ a \in Reach(b) /\ CycleErr(b)
     /\ \A a \in AllIds : CycleErr(a) => OnCycle(a)
     /\ \A e \in cut : CycleErr(e[2]) /\ Edge(e[1], e[2])
